@@ -22,7 +22,7 @@ from pypika_tortoise.terms import Case, SystemTimeValue, Tuple
 
 PROPERTY = "C11"
 
-SHAPES = ["plain", "aliased", "schema", "schema_aliased", "temporal", "subquery", "subquery_auto", "cte", "setop", "setop_auto"]
+SHAPES = ["plain", "aliased", "schema", "schema_aliased", "temporal", "subquery", "subquery_auto", "cte", "setop", "setop_auto", "setop_ordered"]
 COLRX = re.compile(r"^(?P<key>[a-z0-9]+)__(?P<role>[a-z]+)\d*$")
 
 
@@ -66,6 +66,13 @@ class Src:
             self.aliased = True
         elif shape == "setop":
             self.obj = Q.from_(Table("in_" + key)).select("a").union(Q.from_(Table("in2_" + key)).select("a")).as_(key)
+            self.aliased = True
+        elif shape == "setop_ordered":
+            # a set operation with its own ORDER BY: the ordered column names a result column and stays bare wherever the
+            # set operation is embedded
+            t1, t2 = Table("in_" + key), Table("in2_" + key)
+            self.obj = (Q.from_(t1).select(Field("inord__bare", table=t1)).union(Q.from_(t2).select(Field("inord__bare", table=t2)))
+                        .orderby(Field("inord__bare", table=t1)).as_(key))
             self.aliased = True
         elif shape == "setop_auto":
             self.obj = Q.from_(Table("in_" + key)).select("a").union(Q.from_(Table("in2_" + key)).select("a"))
@@ -182,6 +189,8 @@ def build(case, Q):
     q = qh[0]
     k = case["k"]
     exp = {}
+    if "setop_ordered" in case["shapes"]:
+        exp["inord__bare"] = (False, None)
     is_pg = Q.__name__ == "PostgreSQLQuery"
 
     def expect(field_sources, roles, multi, bare_roles=()):
